@@ -461,9 +461,18 @@ func (e *Engine) interfereAcquired(st *State, env *SpecEnv, c *Contract) {
 		}
 		key := e.lockKeyOf(st, ls, base)
 		if st.locks[key] != lockNone {
-			// the callee would self-deadlock (or upgrade): report at the call site
-			e.oblige(st, "lock", "callee_acquires_lock_held_by_caller_"+a.Field, TFalse, 0)
-			continue
+			// fine when the callee declares that it is entered holding this
+			// lock (it releases and re-takes it); otherwise a self-deadlock
+			declared := false
+			for _, h := range c.Holds {
+				if e.holdKey(env, h) == key {
+					declared = true
+				}
+			}
+			if !declared {
+				e.oblige(st, "lock", "callee_acquires_lock_held_by_caller_"+a.Field, TFalse, 0)
+				continue
+			}
 		}
 		e.havocProtected(st, ls, base)
 		lenv := e.lockEnv(st, ls, base, nil)
@@ -471,4 +480,288 @@ func (e *Engine) interfereAcquired(st *State, env *SpecEnv, c *Contract) {
 			st.assume(e.evalSpecBool(lenv, cl.Expr))
 		}
 	}
+}
+
+// ---------------------------------------------------------------------------
+// ghost marks: function-local knowledge sets (see MarkRule)
+
+// resetMarksForLoop forgets, at a loop head, the marks that some rule may
+// change inside the loop body (transitively through inlined callees).
+func (e *Engine) resetMarksForLoop(st *State, fn *ssa.Function, li *loopInfo) {
+	affected := map[string]bool{}
+	var scan func(blocks map[*ssa.BasicBlock]bool, all []*ssa.BasicBlock, depth int)
+	scan = func(blocks map[*ssa.BasicBlock]bool, all []*ssa.BasicBlock, depth int) {
+		visit := func(b *ssa.BasicBlock) {
+			for _, ins := range b.Instrs {
+				ci, ok := ins.(ssa.CallInstruction)
+				if !ok {
+					continue
+				}
+				callee := ci.Common().StaticCallee()
+				if callee == nil {
+					continue
+				}
+				name := callee.String()
+				isLoad := strings.Contains(name, "Load") && (strings.HasPrefix(name, "sync/atomic.") || strings.HasPrefix(name, "(*go.uber.org/atomic."))
+				_, rel := e.relName(callee)
+				for _, ps := range e.specs {
+					for _, r := range ps.MarkRules {
+						if (r.Kind == "load" && isLoad) || (r.Kind == "call" && r.Target == rel) {
+							affected[r.Mark] = true
+						}
+					}
+				}
+				if callee.Blocks != nil && depth < 5 && e.inModule(pkgOf(callee)) {
+					if c := e.contractOf(callee); c == nil || c.Inline {
+						scan(nil, callee.Blocks, depth+1)
+					}
+				}
+			}
+		}
+		if blocks != nil {
+			for b := range blocks {
+				visit(b)
+			}
+		} else {
+			for _, b := range all {
+				visit(b)
+			}
+		}
+	}
+	scan(li.body, nil, 0)
+	for m := range affected {
+		st.ghost[m] = e.ctx.Fresh("mark_"+m, ArrSort(SInt, SBool))
+	}
+}
+
+func (e *Engine) initMarks(st *State, fresh bool) {
+	for _, ps := range e.specs {
+		for _, m := range ps.Marks {
+			if fresh {
+				st.ghost[m] = e.ctx.Fresh("mark_"+m, ArrSort(SInt, SBool))
+			} else {
+				st.ghost[m] = ConstArray(ArrSort(SInt, SBool), TFalse)
+			}
+		}
+	}
+}
+
+func (e *Engine) applyMarkRules(st *State, kind, target string, pkg *types.Package, vars map[string]Value) {
+	if pkg == nil {
+		return
+	}
+	ps, ok := e.specs[pkg.Path()]
+	if !ok {
+		return
+	}
+	for _, r := range ps.MarkRules {
+		if r.Kind != kind || r.Target != target {
+			continue
+		}
+		env := &SpecEnv{e: e, st: st, vars: vars, pkg: pkg, qn: &e.qn}
+		cur, ok := st.ghost[r.Mark].(Term)
+		if !ok {
+			panic(specErr{"mark " + r.Mark + " is not declared"})
+		}
+		idx := e.evalSpecTerm(env, r.Index)
+		val := e.evalSpecBool(env, r.Value)
+		st.ghost[r.Mark] = e.ctx.Define("mark_"+r.Mark, Store(cur, idx, val))
+	}
+}
+
+// ---------------------------------------------------------------------------
+// init-only and monotone fields: what a blanket havoc ("modifies *") keeps
+
+// stableKeys computes, once, the heap keys of fields declared initonly (kept
+// entirely) and monotone (may only switch from false to true).
+func (e *Engine) stableKeys() (initOnly map[string]bool, monotone map[string]bool) {
+	if e.initOnlyKeys != nil {
+		return e.initOnlyKeys, e.monotoneKeys
+	}
+	e.initOnlyKeys, e.monotoneKeys = map[string]bool{}, map[string]bool{}
+	for pk, ps := range e.specs {
+		var tp *types.Package
+		for _, x := range e.allTypesPkgs {
+			if x.Path() == pk {
+				tp = x
+			}
+		}
+		resolve := func(tf string) (types.Type, string, types.Type, bool) {
+			parts := strings.SplitN(tf, ".", 2)
+			if len(parts) != 2 || tp == nil {
+				return nil, "", nil, false
+			}
+			obj := tp.Scope().Lookup(parts[0])
+			if obj == nil {
+				return nil, "", nil, false
+			}
+			_, ft, ok := fieldByName(obj.Type(), parts[1])
+			return obj.Type(), parts[1], ft, ok
+		}
+		for _, tf := range ps.InitOnly {
+			if strings.HasPrefix(tf, "elements ") {
+				// elements of slices of one element type: written only into
+				// backing arrays allocated by the writing function itself
+				ts := strings.TrimSpace(strings.TrimPrefix(tf, "elements "))
+				st, err := func() (t types.Type, err error) {
+					defer func() {
+						if r := recover(); r != nil {
+							err = fmt.Errorf("%v", r)
+						}
+					}()
+					return e.resolveType(tp, ts), nil
+				}()
+				sl, isSlice := st.(*types.Slice)
+				if err != nil || !isSlice {
+					e.initOnlyObls = append(e.initOnlyObls, &Obligation{Kind: "initonly", Name: pkgBase(pk) + ".initonly/" + tf, Verdict: "refuted", Solver: "engine", Output: "cannot resolve slice type " + ts})
+					continue
+				}
+				for _, ks := range e.leafKeys(typeKey(arrRootT(sl.Elem()))+"[]", sl.Elem(), 1) {
+					e.initOnlyKeys[ks.Key] = true
+				}
+				ob := &Obligation{Kind: "initonly", Clause: tf, Name: pkgBase(pk) + ".initonly/" + tf, Func: "initonly " + tf, Solver: "engine", Verdict: "discharged",
+					Goal: "elements of " + ts + " are stored only into backing arrays allocated by the storing function"}
+				if msg := e.elementsReassigned(sl.Elem()); msg != "" {
+					ob.Verdict = "refuted"
+					ob.Output = msg
+				}
+				e.initOnlyObls = append(e.initOnlyObls, ob)
+				continue
+			}
+			t, f, ft, ok := resolve(tf)
+			if !ok {
+				e.engineObls = append(e.engineObls, &Obligation{Kind: "initonly", Name: pkgBase(pk) + ".initonly/" + tf, Verdict: "refuted", Solver: "engine", Output: "cannot resolve " + tf})
+				continue
+			}
+			for _, ks := range e.leafKeys(e.rootKey(t)+"."+f, ft, 0) {
+				e.initOnlyKeys[ks.Key] = true
+			}
+			ob := &Obligation{Kind: "initonly", Clause: tf, Name: pkgBase(pk) + ".initonly/" + tf, Func: "initonly " + tf, Solver: "engine", Verdict: "discharged",
+				Goal: "field " + tf + " is stored only through objects allocated by the storing function (before publication)"}
+			if e.fieldReassigned(t, f) {
+				ob.Verdict = "refuted"
+				ob.Output = "a store to " + tf + " through a non-fresh object exists"
+			}
+			e.initOnlyObls = append(e.initOnlyObls, ob)
+		}
+		for _, tf := range ps.Monotone {
+			t, f, ft, ok := resolve(tf)
+			if !ok {
+				continue
+			}
+			for _, ks := range e.leafKeys(e.rootKey(t)+"."+f, ft, 0) {
+				e.monotoneKeys[ks.Key] = true
+			}
+		}
+	}
+	return e.initOnlyKeys, e.monotoneKeys
+}
+
+// havocAll: the effect of "modifies *" – everything except init-only fields;
+// monotone flags may only be raised. cond (optional) guards the havoc.
+func (e *Engine) havocAll(st *State, cond *Term) {
+	initOnly, mono := e.stableKeys()
+	var keys []string
+	for k := range e.heapKeys {
+		keys = append(keys, k)
+	}
+	sortStrings(keys)
+	for _, k := range keys {
+		if initOnly[k] {
+			continue
+		}
+		so := e.heapKeys[k]
+		a := st.heapArr(k, so)
+		fresh := e.ctx.Fresh(heapSym(k)+"@h", so)
+		if mono[k] && so.Val.K == KBool {
+			r := T("r!q", SInt)
+			st.assume(Forall([]Term{r}, Implies(Select(a, r), Select(fresh, r))))
+		}
+		if cond != nil {
+			st.setHeapArr(k, Ite(*cond, fresh, a))
+		} else {
+			st.heap[k] = fresh
+		}
+	}
+	e.havocGen++
+	st.pending = append(st.pending, pendingHavoc{gen: e.havocGen, cond: cond})
+}
+
+func sortStrings(s []string) {
+	for i := 1; i < len(s); i++ {
+		for j := i; j > 0 && s[j] < s[j-1]; j-- {
+			s[j], s[j-1] = s[j-1], s[j]
+		}
+	}
+}
+
+// elementsReassigned: is there a store into (or an append onto) a slice with
+// this element type whose backing array was not made by the same function?
+func (e *Engine) elementsReassigned(elem types.Type) string {
+	freshRoot := func(v ssa.Value) bool {
+		for depth := 0; depth < 8; depth++ {
+			switch x := v.(type) {
+			case *ssa.MakeSlice, *ssa.Alloc:
+				return true
+			case *ssa.Slice:
+				v = x.X
+			case *ssa.UnOp:
+				// load of a field of an object allocated here: &T{...}.f
+				if fa, ok := x.X.(*ssa.FieldAddr); ok {
+					if _, isAlloc := fa.X.(*ssa.Alloc); isAlloc {
+						return true
+					}
+					if ld, ok := fa.X.(*ssa.UnOp); ok {
+						if a, ok := ld.X.(*ssa.Alloc); ok && !a.Heap {
+							// local variable holding a pointer: accept when it is only assigned fresh allocations
+							fresh := true
+							for _, ref := range *a.Referrers() {
+								if st, ok := ref.(*ssa.Store); ok && st.Addr == ssa.Value(a) {
+									if _, isNew := st.Val.(*ssa.Alloc); !isNew {
+										fresh = false
+									}
+								}
+							}
+							return fresh
+						}
+					}
+				}
+				return false
+			default:
+				return false
+			}
+		}
+		return false
+	}
+	for fn := range e.allFuncs {
+		if fn.Blocks == nil || !e.inModule(pkgOf(fn)) {
+			continue
+		}
+		for _, b := range fn.Blocks {
+			for _, ins := range b.Instrs {
+				switch x := ins.(type) {
+				case *ssa.Store:
+					ia, ok := x.Addr.(*ssa.IndexAddr)
+					if !ok {
+						continue
+					}
+					sl, ok := ia.X.Type().Underlying().(*types.Slice)
+					if !ok || !types.Identical(sl.Elem(), elem) {
+						continue
+					}
+					if !freshRoot(ia.X) {
+						return fmt.Sprintf("%s stores into an element of a %s slice it did not allocate", fn.String(), elem)
+					}
+				case *ssa.Call:
+					if bi, ok := x.Call.Value.(*ssa.Builtin); ok && (bi.Name() == "append" || bi.Name() == "copy") {
+						sl, ok := x.Call.Args[0].Type().Underlying().(*types.Slice)
+						if ok && types.Identical(sl.Elem(), elem) && !freshRoot(x.Call.Args[0]) {
+							return fmt.Sprintf("%s appends/copies into a %s slice it did not allocate", fn.String(), elem)
+						}
+					}
+				}
+			}
+		}
+	}
+	return ""
 }
